@@ -84,7 +84,7 @@ def _run(chk):
     common.quiet_trackpy()
     chk.coq()
     rng = chk.rng
-    n = 60 if chk.tier == 'quick' else 500
+    n = 60 if chk.tier == 'quick' else 1200
     terms, metas, dterms, dmetas = [], [], [], []
     ref_part = {}
     corpus = []
